@@ -11,6 +11,8 @@ TRUSTED = [
     "hand-written model lean/CppUModel/Model/SeparateProcess.lean (wait-status macros as glibc defines them, "
     "SetTestFailureByStatusCode, the parent's do/while wait loop, the registry loop), tied to "
     "src/Platforms/Gcc/UtestPlatform.cpp by the h_c11 correspondence of this run (stubbed fork/waitpid seams and real children)",
+    "the statement list of CommandLineTestRunner::initializeTestRun regenerated as Gen initStatements (switch, spelled `else if`); "
+    "shape checks of CommandLineArguments::parse (-p) and CommandLineTestRunner::runAllTests",
     "extractor translate/extract_sepproc.py: EINTR retry bound, the if/else-if chain of SetTestFailureByStatusCode and the "
     "failure messages regenerated into Gen/SeparateProcessConstants.lean; shape check of the whole parent/child function, "
     "of the two seam implementations, of UtestShell::runOneTest and of TestRegistry::runAllTests",
@@ -32,7 +34,7 @@ ASSUMPTIONS = [
     "(otherwise ASan turns the signal into exit(77), a non-zero exit, which is also recorded once)",
 ]
 RULE = ("registries of 1..12 tests in one or several groups (dying tests also 2nd..4th of their group), separate-process mode "
-        "set through the registry API or through CommandLineTestRunner with -p; a second harness build without "
+        "set through the registry API or through CommandLineTestRunner with -p combined with every subset/order of the switches that do not change which tests run (-c -v -vv -ojunit -oteamcity -r1 -b -s<seed> -ri and filters that select everything); a second harness build without "
         "fork/waitpid/kill; per test either a scripted fork/waitpid outcome list "
         "(exit codes, signals with and without core flag, stops, continued-style words, EINTR runs around the retry bound, "
         "waitpid errors, fork failure, trailing results after the child's end, scripts that never end) or a real child that "
@@ -130,6 +132,40 @@ def script(rng, t):
     return ops
 
 
+CLI_OTHER = ["-c", "-v", "-vv", "-ojunit", "-oteamcity", "-r1", "-b", "-ri", "-gg", "-nt", "-xgZZZ", "-xnZZZ"]
+
+
+def cli_line(rng):
+    """`-p` combined with a random subset, in random order, of the switches that do not change which tests run"""
+    others = [a for a in CLI_OTHER if rng.random() < 0.3]
+    if rng.random() < 0.25:
+        others.append("-s%d" % rng.randrange(1, 99999))
+    rng.shuffle(others)
+    others.insert(rng.randrange(len(others) + 1), "-p")
+    if rng.random() < 0.1:
+        others.insert(rng.randrange(len(others) + 1), "-p")         # given twice
+    return "cli " + " ".join(others[:10] if "-p" in others[:10] else ["-p"] + others[:9])
+
+
+def cli_pairs_cases(rng):
+    """every other switch next to -p, in both orders, and a few triples: a small registry whose second test kills itself"""
+    combos = []
+    for a in CLI_OTHER + ["-s%d" % rng.randrange(1, 9999)]:
+        combos.append([a, "-p"])
+        combos.append(["-p", a])
+    for _ in range(8):
+        k = rng.sample(CLI_OTHER, 3)
+        k.insert(rng.randrange(4), "-p")
+        combos.append(k)
+    out = []
+    for c in combos:
+        ops = ["tests 3", "cli " + " ".join(c), "real 0 body none 0",
+               "real 1 %s %s" % (rng.choice(PHASES), rng.choice(["signal 11", "signal 9", "exit 3", "signal 6"])),
+               "real 2 body none 0", "run"]
+        out.append(ops)
+    return out
+
+
 def group_lines(rng, n):
     """adjacent tests with the same group name form a group: one group for all (no lines), a few
     groups of several tests, or every test its own group"""
@@ -150,7 +186,7 @@ def stub_case(rng):
     n = rng.choice([1, 2, 3, 3, 4, 6])
     ops = ["tests %d" % n] + group_lines(rng, n)
     if rng.random() < 0.15:
-        ops.append("cli")
+        ops.append(cli_line(rng))
     per = [script(rng, t) for t in range(n)]
     if rng.random() < 0.3:                                # interleave the lines of different tests (order per test kept)
         rest = [list(p) for p in per if p]
@@ -223,7 +259,7 @@ def real_case(rng, dying):
         tests.append(("body", [("none", 0)], 0))
     ops = ["tests %d" % len(tests)] + group_lines(rng, len(tests))
     if rng.random() < 0.3:
-        ops.append("cli")
+        ops.append(cli_line(rng))
     for t, (ph, acts, inj) in enumerate(tests):
         ops.append("real %d %s %s" % (t, ph, " ".join("%s %d" % a for a in acts)))
         if inj:
@@ -238,7 +274,7 @@ def forkfail_case(rng, i):
     n = rng.choice([2, 3, 4])
     ops = ["tests %d" % n, "nproc0"] + group_lines(rng, n)
     if i % 3 == 1:
-        ops.append("cli")
+        ops.append(cli_line(rng))
     for t in range(n):
         if t and rng.random() < 0.25:
             ops.append("w %d st %x" % (t, rng.choice([0, st_sig(9), st_exit(1)])))       # stubbed seam: unaffected
@@ -253,7 +289,7 @@ def ticked_case(rng, i):
     bound+2 = 32 are enough to give up); controls: a child that ends after a few interruptions only must NOT be lost"""
     ops = ["tests 4"]
     if i % 2:
-        ops.append("cli")
+        ops.append(cli_line(rng))
     ops.append("real 0 body none 0")
     ops.append("real 1 %s sleep %d" % (rng.choice(["setup", "body", "teardown"]), rng.choice([400, 450, 500])))
     ops.append("tick 1 %d" % rng.choice([1000, 1500, 2000]))
@@ -270,7 +306,7 @@ def grouped_case(rng, cli=False):
     n = sum(sizes)
     ops = ["tests %d" % n]
     if cli:
-        ops.append("cli")
+        ops.append(cli_line(rng))
     t = 0
     for g, size in enumerate(sizes):
         dying = set(rng.sample(range(1, size), rng.choice([1, min(2, size - 1)])))
@@ -365,6 +401,8 @@ def generate(rng, tier):
     # real waitpid seam interrupted by a periodic signal whose handler has no SA_RESTART, while a child sleeps
     for i in range(4 if quick else 24):
         out.append(("ticked", ticked_case(rng, i)))
+    for ops in cli_pairs_cases(rng):
+        out.append(("cliargs", ops))
     # the REAL fork seam fails: the case process drops root and sets RLIMIT_NPROC to 0
     for i in range(3 if quick else 16):
         out.append(("forkfail", forkfail_case(rng, i)))
@@ -373,7 +411,7 @@ def generate(rng, tier):
         n = rng.choice([2, 3, 4, 5])
         ops = ["tests %d" % n] + group_lines(rng, n)
         if rng.random() < 0.3:
-            ops.append("cli")
+            ops.append(cli_line(rng))
         for t in range(n):
             if rng.random() < 0.5:
                 ops += script(rng, t)
@@ -408,7 +446,8 @@ def malformed_case(rng):
         elif x < 0.8:
             ops.append("real %d nowhere signal 9" % t)
         elif x < 0.84:
-            ops.append(rng.choice(["grp %d 5000" % t, "grp %d" % t, "cli", "cli now", "grp %d 1" % t]))
+            ops.append(rng.choice(["grp %d 5000" % t, "grp %d" % t, "cli", "cli now", "grp %d 1" % t, "cli -c -v", "cli -p -lg",
+                                   "cli -p -h", "cli -p -c -p"]))
         elif x < 0.9:
             ops.append("run")
         else:
@@ -492,7 +531,7 @@ def nofork_case(rng):
     n = rng.choice([1, 2, 3, 5])
     ops = ["tests %d" % n] + group_lines(rng, n)
     if rng.random() < 0.4:
-        ops.append("cli")
+        ops.append(cli_line(rng))
     for t in range(n):
         ops += script(rng, t)[:3]          # whatever the seams would answer: they are never asked
     ops.append("run")
